@@ -923,8 +923,9 @@ theorem convert_entry_total_partial (target : Syn) (input : List Nat) :
       | some out => exact Or.inl ⟨out, rfl, rfl⟩
 
 /-- the full demand on `ConvertTo`: as `convert_entry_total_partial`, and the printer never reaches an unchecked access on a
-tree the parser returns. NOT proved: needs an induction over `GeneratorImplAST` (Model/Printer.lean) along the shape
-`Checker.WfParsed` of parsed trees; observed by the `c05 convert` correspondence runs (model never `stuck`). -/
+tree the parser returns. PROVED in section 6 (`convert_entry_total`): an induction over `GeneratorImplAST` (Model/Printer.lean)
+along the arity / payload table `PrinterShape.Printable` that the parser establishes (the shape `Checker.WfParsed` is too weak
+for the printer: `Printer.print_stuck_on_WfParsed_counterexample`). -/
 def convert_entry_total_statement : Prop :=
   ∀ (target : Syn) (input : List Nat),
     (convertEntry target input = .outside ↔ unitsOf (other target) input = none) ∧
